@@ -697,6 +697,16 @@ func fkCorpus(prop string) func() []any {
 		g2 := fkBlock{ID: 201, Num: 2, Parent: 200, Lib: 1}
 		out = append(out, &fkInput{Prop: prop, Mode: "disc", First: 1, Kept: 1, Filter: 51, FailAt: 0,
 			History: []fkBlock{g, g2}, Lookups: prop == "C18", Shape: "disc/corpus-fail-first"})
+		// discovery mode: a block that declares itself final establishes the LIB (SetLIB does not purge) while lower
+		// blocks are still stored: not a "LIB move" (false alarm of the C18 monitor corrected)
+		out = append(out, &fkInput{Prop: prop, Mode: "disc", LIB: fkRef{ID: 101, Num: 3}, First: 2, Kept: 1, Filter: 51, FailAt: -1,
+			History: []fkBlock{{ID: 105, Num: 4, Parent: 101, Lib: 3}, {ID: 110, Num: 6, Parent: 107, Lib: 6},
+				{ID: 101, Num: 3, Parent: 103, Lib: 2}, {ID: 107, Num: 5, Parent: 105, Lib: 3}},
+			Lookups: prop == "C18", Shape: "disc/corpus-self-final"})
+		// inclusive LIB: a block far below the LIB is stored before the LIB block arrives; the root announcement moves nothing
+		out = append(out, &fkInput{Prop: prop, Mode: "incl", LIB: fkRef{ID: 10, Num: 10}, First: 1, Kept: 0, Filter: 51, FailAt: -1,
+			History: []fkBlock{{ID: 3, Num: 3, Parent: 2, Lib: 1}, {ID: 10, Num: 10, Parent: 9, Lib: 5}, {ID: 11, Num: 11, Parent: 10, Lib: 10}},
+			Lookups: prop == "C18", Shape: "incl/corpus-root-announcement"})
 		return out
 	}
 }
